@@ -55,6 +55,7 @@ var c02Site = map[string]string{
 	"plain":   "{% for i in l %}{{ i|upper }}{{ tick() }}{% endfor %}{{ m.k }}{{ p.Name }}{{ v }}",
 	"inc2":    "{% include 'plain' %}+{% include 'a/p' %}+{% include 'b/p' with {'q': v} only %}",
 	"hot":     "H0:{{ v }}{{ tick() }}",
+	"opt":     "[{% include 'late' ignore missing %}]{{ tick() }}",
 	"long":    "{% set t = v ~ '!' %}{% if l|length > 2 %}{{ l|join(',') }}{% else %}no{% endif %}{{ tick() }}{{ t|upper }}{% for k, x in m %}{{ k }}={{ x }};{% endfor %}" + strings.Repeat("<p>text {{ v }}</p>", 20),
 }
 
@@ -122,7 +123,8 @@ func (propC02) Gen(seed uint64, ex map[string]bool) interface{} {
 		renderable = append(renderable, names[len(names)-1])
 	}
 	nt := r.Range(2, 4)
-	hot := r.P(30) && !ex["conflicting-registration"]
+	hot := r.P(35) && !ex["conflicting-registration"]
+	late := r.P(40)
 	for t := 0; t < nt; t++ {
 		var ops []c02Op
 		n := r.Range(1, 4)
@@ -130,10 +132,16 @@ func (propC02) Gen(seed uint64, ex map[string]bool) interface{} {
 			v := fmt.Sprintf("t%d_%d", t, i)
 			if hot && r.P(65) {
 				// conflicting versions of one name: checked for linearizability, not against a fixed expectation
-				if r.P(45) {
-					ver := t*10 + i + 1
+				ver := t*10 + i + 1
+				switch {
+				case late && r.P(45):
+					// a name that no loader has, included with `ignore missing`, gets registered concurrently
+					ops = append(ops, c02Op{K: "reghot", Name: "late", Src: fmt.Sprintf("H%d:", ver), V: v})
+				case late:
+					ops = append(ops, c02Op{K: "renderhot", Name: "opt", V: v})
+				case r.P(45):
 					ops = append(ops, c02Op{K: "reghot", Name: "hot", Src: fmt.Sprintf("H%d:{{ v }}{{ tick() }}", ver), V: v})
-				} else {
+				default:
 					ops = append(ops, c02Op{K: "renderhot", Name: "hot", V: v})
 				}
 				continue
@@ -374,6 +382,15 @@ func (propC02) Run(scI interface{}) *Outcome {
 				in.Ver = hotVer(op.Src)
 				if got[t][i].Class == "ok" {
 					out = 0
+				}
+			} else if got[t][i].Class == "ok" && op.Name == "opt" {
+				switch g := got[t][i].Out; {
+				case g == "[]":
+					out = 0
+				case strings.HasPrefix(g, "[H") && strings.HasSuffix(g, ":]"):
+					out = hotVer(g[1:])
+				default:
+					out = -2
 				}
 			} else if got[t][i].Class == "ok" {
 				out = hotVer(got[t][i].Out)
